@@ -1548,6 +1548,15 @@ private:
 public:
 
     /**
+     * Determine if the string-value of a node is empty.
+     *
+     * @param node the node
+     * @return true if the string-value is empty
+     */
+    bool
+    hasEmptyData(const XalanNode&   node) const;
+
+    /**
      * Reset the vector of top level parameters
      */
     void
